@@ -137,6 +137,31 @@ func jsRegistrations(w *World, tb *TB) map[string]*ssa.Function {
 					if arr.Op == "slice" {
 						arr = arr.Args[0]
 					}
+					if arr.Op == "gval" && strings.HasPrefix(arr.Sym, "main.") && !wasmGlobalWritten(w, arr.Sym) {
+						// the rows are a package-level literal that nothing writes
+						if e, info := w.GlobalInit(WasmPath, strings.TrimPrefix(arr.Sym, "main.")); e != nil {
+							if lit := EvalLit(e, info); lit != nil && lit.Kind == "list" {
+								for _, row := range lit.Elems {
+									if row == nil || row.Kind != "struct" {
+										continue
+									}
+									n, fv := row.Field(nt.Sym), row.Field(vt.Args[0].Sym)
+									if n == nil || fv == nil || fv.Kind != "ident" || fv.Obj == nil {
+										continue
+									}
+									name, isStr := n.Str()
+									if !isStr {
+										continue
+									}
+									for _, g := range w.ModuleFuncs(WasmPath) {
+										if g.Object() == fv.Obj {
+											out[name] = g
+										}
+									}
+								}
+							}
+						}
+					}
 					if a, ok := arr.Val.(*ssa.Alloc); ok && arr.Op == "alloc" {
 						saved := tb.curLoad
 						tb.curLoad = nil
@@ -199,13 +224,19 @@ func checkPow10(tb *TB, f *ssa.Function) string {
 	ok := false
 	EachInstr(f, func(in ssa.Instruction) {
 		if iff, isIf := in.(*ssa.If); isIf {
-			if normT(tb.Of(iff.Cond)) == fmt.Sprintf("bin(<; phi(bin(+; const(1); cycle(*)); const(0)); param(%s#0))", FuncName(f)) {
+			// exactly n rounds (none for n ≤ 0): counting up from 0 or 1 to n, or down from n to 0
+			P := fmt.Sprintf("param(%s#0)", FuncName(f))
+			switch normT(tb.Of(iff.Cond)) {
+			case "bin(<; phi(bin(+; const(1); cycle(*)); const(0)); " + P + ")",
+				"bin(<=; phi(bin(+; const(1); cycle(*)); const(1)); " + P + ")",
+				"bin(>; phi(bin(-; cycle(*); const(1)); " + P + "); const(0))",
+				"bin(>=; phi(bin(-; cycle(*); const(1)); " + P + "); const(1))":
 				ok = true
 			}
 		}
 	})
 	if !ok {
-		return "the loop does not run exactly n times (i = 0; i < n; i++)"
+		return "the loop does not run exactly n times (counting up to n or down from n)"
 	}
 	return ""
 }
@@ -692,4 +723,56 @@ func init() {
 		thorough: []Config{CfgWasm},
 		run:      runC20,
 	})
+}
+
+// wasmGlobalWritten: is the binding's package-level variable sym ("main.x") stored to, or its address taken for
+// anything but a load, outside the package initialiser?
+func wasmGlobalWritten(w *World, sym string) bool {
+	written := false
+	for _, f := range w.ModuleFuncs(WasmPath) {
+		if isInit(f) {
+			continue
+		}
+		EachInstr(f, func(in ssa.Instruction) {
+			var ops []*ssa.Value
+			for _, op := range in.Operands(ops) {
+				g, ok := (*op).(*ssa.Global)
+				if !ok || valID(g) != sym {
+					continue
+				}
+				if u, isLoad := in.(*ssa.UnOp); isLoad && u.Op == token.MUL {
+					// the loaded slice may only be measured and read element-wise
+					var walk func(v ssa.Value)
+					walk = func(v ssa.Value) {
+						if v.Referrers() == nil {
+							return
+						}
+						for _, r := range *v.Referrers() {
+							switch x := r.(type) {
+							case *ssa.IndexAddr:
+								walk(x)
+							case *ssa.FieldAddr:
+								walk(x)
+							case *ssa.UnOp:
+								if x.Op != token.MUL {
+									written = true
+								}
+							case *ssa.Call:
+								if CalleeName(x.Common()) != "builtin.len" {
+									written = true
+								}
+							case *ssa.DebugRef:
+							default:
+								written = true
+							}
+						}
+					}
+					walk(u)
+					continue
+				}
+				written = true
+			}
+		})
+	}
+	return written
 }
